@@ -149,6 +149,11 @@ Strip(evs) == [i \in 1..Len(evs) |-> [o |-> evs[i].o, t |-> evs[i].t]]
 (* observes it ("same") or in another one ("other").  unk: some operand of the    *)
 (* occurrence has no claim / the claim Any - a claim on the occurrence itself can *)
 (* then only be left over from an earlier iteration of the fixed point.           *)
+(* clo: the occurrence reads a captured variable and the (final) CLOSURE_TYPES of *)
+(* its function do cover the tag - the body was annotated before they were        *)
+(* complete.  cshadow (closure clause): the calling function declares the         *)
+(* captured name nonlocal, or has a local of the same name - the state it passes  *)
+(* on as closure types speaks about its own names.                                *)
 HasAny(ts)  == \E i \in 1..Len(ts) : \E j \in 1..Len(ts[i]) : ts[i][j] = "any"
 Unknown(a)  == ~HasClaim(a) \/ HasAny(ClaimOf(a))
 UnkArgs(o)  == \E j \in 1..Len(EX(o).args) : Unknown(EX(o).args[j])
@@ -156,7 +161,12 @@ BadRec(clause, o, t, nm, c, act) ==
   LET w == IF c = 0 THEN W("na", TRUE, act, 0, FALSE) ELSE cells[c].w IN
   [clause |-> clause, o |-> o, t |-> t, name |-> nm, wk |-> w.kind, wc |-> w.claimed, wnode |-> w.node, wnl |-> w.nl,
    wrel |-> IF c = 0 THEN "na" ELSE IF w.act = act THEN "same" ELSE "other",
-   unk |-> clause = "types" /\ UnkArgs(o)]
+   unk |-> clause = "types" /\ UnkArgs(o),
+   clo |-> clause = "types" /\ c # 0 /\ EX(o).kind = "name" /\ nm \notin LocalsOf(EX(o).fn)
+           /\ HasClo(EX(o).fn, nm) /\ Covers(CloOf(EX(o).fn, nm), t),
+   cshadow |-> clause = "closure" /\ c # 0 /\
+               (IF envs[act].cellOf[nm] = 0 THEN nm \in Range(FN(envs[act].fn).nonlocals)
+                ELSE envs[act].cellOf[nm] # c)]
 
 RECURSIVE Judge(_, _, _, _, _)
 Judge(evs, i, b, dirty, act) ==
@@ -169,12 +179,17 @@ Judge(evs, i, b, dirty, act) ==
        ELSE Judge(evs, i + 1, b, dirty \/ viol \/ tainted, act)
 
 (* closure types must cover the captured variables at every call *)
+ClosureViol(g, fenv) ==
+  {m \in FreeOf(g) :
+     LET c == CellOf(envs, fenv, m) IN
+     /\ c # 0 /\ cells[c].v # Unbound /\ ~cells[c].taint
+     /\ HasClo(g, m) /\ ~Covers(CloOf(g, m), cells[c].v.t)}
 ClosureBad(g, fenv, o, act) ==
-  {BadRec("closure", o, cells[CellOf(envs, fenv, nm)].v.t, nm, CellOf(envs, fenv, nm), act) :
-     nm \in {m \in FreeOf(g) :
-               LET c == CellOf(envs, fenv, m) IN
-               /\ c # 0 /\ cells[c].v # Unbound /\ ~cells[c].taint
-               /\ HasClo(g, m) /\ ~Covers(CloOf(g, m), cells[c].v.t)}}
+  {BadRec("closure", o, cells[CellOf(envs, fenv, nm)].v.t, nm, CellOf(envs, fenv, nm), act) : nm \in ClosureViol(g, fenv)}
+(* what the callee then reads from such a variable is a consequence *)
+TaintViol(g, fenv) ==
+  LET cs == {CellOf(envs, fenv, nm) : nm \in ClosureViol(g, fenv)} IN
+  [c \in 1..Len(cells) |-> IF c \in cs THEN [cells[c] EXCEPT !.taint = TRUE] ELSE cells[c]]
 
 (* bindings: ws = sequence of [o, name, v]; name = "" is an event without a cell  *)
 (* (the tuple target as a whole)                                                  *)
@@ -185,7 +200,8 @@ DoWrites(cl, es, env, ws, kind, dirty, n, b, evs, src) ==
            viol == HasClaim(w.o) /\ ~Covers(ClaimOf(w.o), w.v.t)
            b1 == IF viol /\ ~dirty
                  THEN b \cup {[clause |-> "types", o |-> w.o, t |-> w.v.t, name |-> w.name, wk |-> kind, wc |-> TRUE,
-                               wnode |-> n, wnl |-> FALSE, wrel |-> "store", unk |-> src # 0 /\ Unknown(src)]}
+                               wnode |-> n, wnl |-> FALSE, wrel |-> "store", unk |-> src # 0 /\ Unknown(src),
+                               clo |-> FALSE, cshadow |-> FALSE]}
                  ELSE b
            e1 == Append(evs, [o |-> w.o, t |-> w.v.t]) IN
        IF w.name = "" THEN DoWrites(cl, es, env, Tail(ws), kind, dirty \/ viol, n, b1, e1, src)
@@ -318,7 +334,7 @@ ExecCall ==
                      N == NewEnv(g, fv.env, Len(cells))
                      ne == Len(envs) + 1
                      es == Append(envs, N.env)
-                     cl0 == cells \o [i \in 1..N.n |-> UnboundCell]
+                     cl0 == TaintViol(g, fv.env) \o [i \in 1..N.n |-> UnboundCell]
                      b1 == J.bad \cup ClosureBad(g, fv.env, d.e, env)
                      ws == [i \in 1..Len(FN(g).params) |->
                               [o |-> FN(g).params[i], name |-> EX(FN(g).params[i]).name, v |-> a.vs[i + 1]]]
